@@ -34,6 +34,7 @@ type Case struct {
 	Root    map[string]string `json:"root"`
 	DecRes  int               `json:"dec_resolver"`  // 0 gotypes, 1 goast.WithResolver(accurate)
 	RestRes int               `json:"rest_resolver"` // 0 simple(accurate), 1 guess.WithMap(accurate)
+	Pkg     bool              `json:"pkg,omitempty"` // all files are decorated as one *ast.Package by one DecorateNode call
 }
 
 func names(libs []gen.Lib) map[string]string {
@@ -98,19 +99,47 @@ func check(t h.TB, c Case) {
 		return decorator.NewDecoratorWithImports(fset, "example.com/root", goast.WithResolver(simple.New(p.Names)))
 	}
 	res := decorator.NewRestorerWithImports("example.com/root", rr)
+	var dpkg *dst.Package
+	if c.Pkg {
+		// every file of the package in one DecorateNode call: each file's identifiers must be
+		// resolved against that file's own imports
+		anyDot := false
+		for _, fn := range fnames {
+			anyDot = anyDot || hasDot(c.Root[fn])
+		}
+		var dec *decorator.Decorator
+		if c.DecRes == 0 || anyDot {
+			dec = decorator.NewDecoratorWithImports(ck.Fset, "example.com/root", gotypes.New(ck.Info.Uses))
+		} else {
+			dec = mkDec(ck.Fset, false, "")
+		}
+		var node dst.Node
+		h.Guard(t, sub, c, func() { node, err = dec.DecorateNode(&ast.Package{Name: "root", Files: ck.Files}) })
+		if err != nil {
+			h.Fail(t, sub, c, "DecorateNode(*ast.Package): %v", err)
+		}
+		dpkg = node.(*dst.Package)
+	}
 	for _, fn := range fnames {
 		src := c.Root[fn]
 		useTypes := c.DecRes == 0 || hasDot(src) // the syntax-only resolver refuses dot-imports (C09)
-		var dec *decorator.Decorator
-		if useTypes {
-			dec = decorator.NewDecoratorWithImports(ck.Fset, "example.com/root", gotypes.New(ck.Info.Uses))
-		} else {
-			dec = mkDec(ck.Fset, false, src)
-		}
 		var df *dst.File
-		h.Guard(t, sub, c, func() { df, err = dec.DecorateFile(ck.Files[fn]) })
-		if err != nil {
-			h.Fail(t, sub, c, "DecorateFile(%s): %v", fn, err)
+		if dpkg != nil {
+			df = dpkg.Files[fn]
+			if df == nil {
+				h.Fail(t, sub, c, "file %s missing from the decorated package", fn)
+			}
+		} else {
+			var dec *decorator.Decorator
+			if useTypes {
+				dec = decorator.NewDecoratorWithImports(ck.Fset, "example.com/root", gotypes.New(ck.Info.Uses))
+			} else {
+				dec = mkDec(ck.Fset, false, src)
+			}
+			h.Guard(t, sub, c, func() { df, err = dec.DecorateFile(ck.Files[fn]) })
+			if err != nil {
+				h.Fail(t, sub, c, "DecorateFile(%s): %v", fn, err)
+			}
 		}
 		before := annotations(df)
 		var buf bytes.Buffer
@@ -171,7 +200,31 @@ func genCase(t *rapid.T) (Case, bool) {
 		return c, false
 	}
 	npaths, dotAdjacent := 0, false
-	for name, src := range p.RootSources("example.com/root") {
+	rs := p.RootSources("example.com/root")
+	var rnames []string
+	for name := range rs {
+		rnames = append(rnames, name)
+	}
+	sort.Strings(rnames)
+	c.Pkg = len(rnames) > 1 && rapid.IntRange(0, 2).Draw(t, "pkg") == 0
+	if c.Pkg {
+		h.Label("decorated-as-one-package")
+	}
+	for _, name := range rnames {
+		src := rs[name]
+		if rapid.IntRange(0, 5).Draw(t, "emptyimport") == 0 {
+			// an empty import declaration (legal, kept by gofmt), in front of or behind the others
+			if i := strings.Index(src, "\n\n"); i >= 0 && rapid.Bool().Draw(t, "front") {
+				src = src[:i+2] + "import ()\n\n" + src[i+2:]
+			} else if j := strings.LastIndex(src, "\nimport "); j >= 0 {
+				if k := strings.Index(src[j+1:], "\n\n"); k >= 0 && !strings.Contains(src[j+1:j+1+k], "(") {
+					src = src[:j+1+k+1] + "import ()\n" + src[j+1+k+1:]
+				}
+			}
+			if strings.Contains(src, "import ()") {
+				h.Label("empty-import-declaration")
+			}
+		}
 		inj, kinds := gen.Inject(t, []byte(src), gen.LayoutOpts{Max: 8, NoBuildTags: true})
 		cs, fix, err := oracle.Canon(inj)
 		if err != nil || !fix {
@@ -203,7 +256,7 @@ func genCase(t *rapid.T) (Case, bool) {
 			key = append(key, n+s)
 		}
 		sort.Strings(key)
-		h.NonTrivial(sub, strings.Join(key, "\x00"), fmt.Sprint(c.DecRes, c.RestRes))
+		h.NonTrivial(sub, strings.Join(key, "\x00"), fmt.Sprint(c.DecRes, c.RestRes, c.Pkg))
 	}
 	var first string
 	for _, s := range c.Root {
